@@ -19,18 +19,29 @@ import vf
 
 def drift(run, out, meta, traces):
     """the transcribed tables of the spec against the real code; only meaningful when the verdict pass is clean"""
-    for job in meta.get("jobs", []):
-        if not job["trace"].startswith(traces):
-            continue
-        p = os.path.join(out, job["trace"])
-        st = run.trace_states
-        acc, hwm, n, r = run.validate_file(job["spec"], p, cfg="Trace_UdpPack_drift.cfg")
-        run.trace_states = st
+    from concurrent.futures import ThreadPoolExecutor
+    jobs = [j for j in meta.get("jobs", []) if j["trace"].startswith(traces)]
+    st = run.trace_states
+
+    def one(job):
+        try:
+            return job, run.validate_file(job["spec"], os.path.join(out, job["trace"]), cfg="Trace_UdpPack_drift.cfg")
+        except vf.MachineryError as ex:
+            return job, ex
+
+    with ThreadPoolExecutor(max_workers=max(1, min(5, vf.NCPU // 3))) as pool:
+        results = list(pool.map(one, jobs))
+    run.trace_states = st
+    for job, res in results:
+        if isinstance(res, vf.MachineryError):
+            raise res
+        acc, hwm, n, r = res
         if not acc:
+            p = os.path.join(out, job["trace"])
             line = open(p).read().splitlines()[hwm - 1]
             try:
                 e = json.loads(line)
-                what = {k: e.get(k) for k in ("ev", "type", "ver", "carried", "in", "out") if k in e}
+                what = {k: e.get(k) for k in ("ev", "type", "ver", "carried", "in", "out", "of", "cut", "caps") if k in e}
             except Exception:
                 what = line[:300]
             run.extra["spec_drift"] = dict(trace=job["trace"], line=hwm, event=what)
@@ -64,7 +75,6 @@ def body(run):
     run.selftest(out, meta, gen="gate", field="consumed")
     run.selftest(out, meta, gen="each", field="pooled")
     run.selftest(out, meta, gen="enum", field="type")
-    run.selftest(out, meta, gen="long", field="consumed")
     run.selftest(out, meta, gen="alias", field="v", remove_match={"ev": "W"})
     run.selftest(out, meta, gen="fail", field="pooled", remove_match={"ev": "Acquire"})
     if run.violations:
@@ -74,7 +84,10 @@ def body(run):
     run.assumptions += [
         "field values are projected by reflection and encoding/binary only; the carried set of a (type, version) is derived from the real writer by changing one field at a time (one generic base point)",
         "a carried field counts as restored if the reader holds it after Read or after Read+Process (UdpActiveStatsPack rebuilds its array only in Process); the stats array has 0 or 5 slots",
-        "every Truncate cap in a writer (transaction start, message pack) is treated as a documented cap; cap values are golib's exported constants",
+        "the accepted caps are pinned in spec/UdpPack.tla (StartCaps; MessageCapsLeniency = Hash/Desc of the message pack, a named leniency); a capped field restored in full is accepted; golib's cap constants are only cross-checked (spec_drift)",
+        "long periodic texts are recorded in a lossless compact form (prefix + unit + length) by the same projection on the written and the read pack",
+        "kept encoder outputs and packs are looked at again after later calls of the package, not after the caller rewrote its own buffers; one P, collector off (losing that only loses detection)",
+        "a failed ToPack/ReadPack is judged only by what later CreatePack calls hand out (the pack it took is invisible; the spec's bag over-approximates the real pool); booleans are not scanned in the error-path histories",
         "UdpRelayPack.Len is out-of-band (set from the datagram length before Read)",
         "password key = the exact lowercase key; capitalised variants are counted as information only; a value cannot contain its own separator (it reads as two tokens)",
         "pool histories run on one P with the collector off so that sync.Pool returns released objects deterministically; booleans are judged by a twin run with the opposite fill value",
